@@ -1,5 +1,5 @@
 (* C13 -- visualize agrees with the audit, and what it emits is a well-formed tree. *)
-From Skv Require Import PyStr Json Node GetTree Unsafe UnsafeFacts Walk WalkFacts.
+From Skv Require Import PyStr Json Node GetTree Unsafe UnsafeFacts NodeInd Families TreeWf TreeIds GraphAudit Walk WalkFacts.
 
 (* whenever visualize completes, what reaches the printer is: the root row first, then rows each at
    most one level deeper than the previous one (every show mode) *)
@@ -58,3 +58,11 @@ Theorem C13_self_unsafe_not_safe :
     forall u, unsafe E T root (Node h subs) = Ok u -> u <> [].
 Proof. intros E T root h subs UK SS u. apply self_unsafe_not_safe; assumption. Qed.
 Print Assumptions C13_self_unsafe_not_safe.
+
+(* no row is marked fully safe while an untrusted name occurs at or beneath it: a node whose audit is empty
+   (that is what r_safe = true means, C13_row_is_audit) has no untrusting node anywhere in its subtree *)
+Theorem C13_no_false_safe :
+  forall E schema T t m n, root_tree E schema = Ok (t, m) -> sub n t -> unsafe E T t n = Ok [] ->
+  forall x nm, sub x n -> contributes E T x nm -> False.
+Proof. exact clean_audit_means_clean_subtree. Qed.
+Print Assumptions C13_no_false_safe.
